@@ -103,7 +103,7 @@ def _case(draw):
     ops = []
     if draw(st.integers(0, 5)) > 0:
         ops = [{"op": "RY", "p": [draw(gen.generic_angles())], "w": [w]} for w in wires]
-    ops += draw(gen.op_list(wires, None, 6, min_depth=0, extras=True, p_derive=0.1))
+    ops += draw(gen.op_list(wires, None, 6, min_depth=0 if ops else 1, extras=True, p_derive=0.1))
     if dev == "default.mixed":
         for _ in range(draw(st.integers(0, 2))):
             ops.insert(draw(st.integers(0, len(ops))), draw(channel(wires)))
@@ -401,6 +401,8 @@ def check(spec):
     else:
         dev0 = ctx.device(0)
         t0 = qp.tape.QuantumScript(ctx.ops, ctx.mps, shots=total)
+        if not len(t0.wires):
+            raise Reject("no wires at all (device without wires, empty circuit, wire-less measurement)")
         (pt,), _ = dev0.preprocess()[0]([t0])
         if set(pt.wires) != set(t0.wires):
             raise Reject("device without wires: decomposition dropped a wire")
